@@ -44,7 +44,13 @@ type RpcMultiplexer struct {
 
 	mutex         sync.Mutex
 	streamCounter uint64
-	rErr          error
+
+	// rErr is written with both mutex and errMutex held, so holding either is
+	// enough to read it. readErrorIfDone takes only errMutex: it is called on
+	// the write path, which must not wait behind the read loop while that is
+	// blocked, holding mutex, delivering a response nobody reads yet.
+	errMutex sync.Mutex
+	rErr     error
 
 	codec encoding.CodecV2
 }
@@ -78,7 +84,9 @@ func (rm *RpcMultiplexer) closeError(err error) {
 	rm.cancel()
 
 	if err != nil {
+		rm.errMutex.Lock()
 		rm.rErr = err
+		rm.errMutex.Unlock()
 		for id, h := range rm.handlers {
 			close(h.ch)
 			delete(rm.handlers, id)
@@ -258,8 +266,8 @@ func (rm *RpcMultiplexer) unregisterHandler(id uint64) {
 }
 
 func (rm *RpcMultiplexer) readErrorIfDone() error {
-	rm.mutex.Lock()
-	defer rm.mutex.Unlock()
+	rm.errMutex.Lock()
+	defer rm.errMutex.Unlock()
 
 	return rm.rErr
 }
